@@ -325,6 +325,22 @@ func (fv *FV) store(st *State, p SymVal, v SymVal, vt types.Type, pos token.Pos,
 		}
 		fv.globalFrameCheck(st, name, pos)
 		st.heap[name] = fv.def(st, name, t)
+	case VElemPtr:
+		if p.Root == nil {
+			fv.outsidef("store into an element of a slice that is not a local variable (%s)", fv.eng.pos(pos))
+			return
+		}
+		cv, ok := st.cells[p.Cell]
+		if !ok || cv.K != VTerm || cv.T.S != p.Sl.S {
+			fv.outsidef("store into a slice element: the slice variable changed since the element address was taken (%s)", fv.eng.pos(pos))
+			return
+		}
+		fv.assume("A4: element stores into a slice held in a local variable update that variable only (no aliasing)")
+		t := fv.term(st, v, vt)
+		sl := cv.T
+		nv := Term{S: fmt.Sprintf("(%s_mk (store (%s_arr %s) %s %s) (%s_len %s))", sl.Sort, sl.Sort, sl.S, p.Idx.S, t.S, sl.Sort, sl.S), Sort: sl.Sort, T: sl.T}
+		st.escapeTerm(t)
+		st.cells[p.Cell] = tv(fv.def(st, "slst", nv))
 	default:
 		fv.outsidef("store through unsupported pointer (%s)", fv.eng.pos(pos))
 	}
@@ -723,7 +739,16 @@ func (fv *FV) indexAddr(st *State, x *ssa.IndexAddr) {
 	if base.K == VTerm && strings.HasPrefix(base.T.Sort, "pv_Sl_") {
 		sl := base.T
 		fv.oblige(st, "index", "slice", x.Pos(), Term{S: fmt.Sprintf("(and (<= 0 %s) (< %s (%s_len %s)))", idx.S, idx.S, sl.Sort, sl.S), Sort: SBool}, "")
-		fv.setReg(st, x, SymVal{K: VElemPtr, Sl: sl, Idx: &idx})
+		ep := SymVal{K: VElemPtr, Sl: sl, Idx: &idx}
+		// element of a slice held in a local variable: stores update that variable's value
+		// (A4: slices are values; sound when the slice is not aliased, e.g. made in this function)
+		if ld, ok := x.X.(*ssa.UnOp); ok {
+			if al, ok := ld.X.(*ssa.Alloc); ok && !fv.isHeapObject(al) {
+				ep.Cell = CellID{Frame: st.frame.ID, A: al}
+				ep.Root = al.Type().(*types.Pointer).Elem()
+			}
+		}
+		fv.setReg(st, x, ep)
 		return
 	}
 	fv.outsidef("IndexAddr on unsupported base at %s", fv.eng.pos(x.Pos()))
